@@ -179,8 +179,9 @@ def cases(rng, tier):
     return out
 
 
-WIDE = [15, 16, 17, 31, 32, 33, 63, 64, 65, 66, 100, 127, 128, 129, 200, 255, 256, 257, 1000]
-WIDE_FILLS = ["", " ", "~", "0", "}", "\u00e9", "\U0001d11e", "\u0301"]
+WIDE = [9, 10, 11, 12, 15, 16, 17, 21, 22, 31, 32, 33, 43, 63, 64, 65, 66, 100, 127, 128, 129, 200, 255, 256, 257, 1000]
+WIDE_FILLS = ["", " ", "~", "0", "}", "\u00e9", "\U0001d11e", "\u0301", "\u20ac", "\u4e2d"]
+WIDE3 = ["\u20ac", "\u4e2d"]   # 3-byte fills: a padding block of 2^k bytes is not a whole number of them
 WIDE_TEXTS = [[], ["a"], ["ab", "c"], ["\u00ff"], ["\U0010ffff", "a\u0301"], ["0123456789"],
               ["x" * 40, "y" * 30], ["\u20ac" * 70], ["ab" * 33, "\U0001d11e" * 3]]
 
@@ -192,7 +193,7 @@ def wide_cases(rng, thorough):
         for al in (1, 2):
             for mxk in ("absent", "equal", "larger", "plus1"):
                 mx = {"absent": 0, "equal": w + 1, "larger": w + 1 + rng.range(2, 70), "plus1": w + 2}[mxk]
-                fills = WIDE_FILLS if thorough else [rng.choice(WIDE_FILLS[:5]), rng.choice(WIDE_FILLS[5:])]
+                fills = WIDE_FILLS if thorough else [rng.choice(WIDE_FILLS[:5]), rng.choice(WIDE_FILLS[5:8]), rng.choice(WIDE3)]
                 for fill in fills:
                     texts = WIDE_TEXTS if thorough else [WIDE_TEXTS[0], rng.choice(WIDE_TEXTS[1:6]), rng.choice(WIDE_TEXTS[6:])]
                     for pieces in texts:
